@@ -17,26 +17,61 @@ DO = "bempp_cl/api/assembly/discrete_boundary_operator.py"
 REPS = ("to_dense", "to_sparse", "get_diagonal", "A")
 
 
-def _term(n, cls, o, A, B):
+def _path_term(st, env, cls, o, A, B):
+    """Term returned by the method `st` on the path the inputs `env` select, with the straight-line locals of that path
+    folded in: `t = X.to_dense().copy(); t += Y.to_dense(); return Cls(t)` denotes X + Y.  None: the path raises or
+    returns nothing."""
+    effs = dispatch.effects(st.body, env, "%s.%s" % (cls, st.name))
+    loc = {}
+    ex = lambda txt: ast.parse(txt, mode="eval").body
+    for e in effs:
+        if e[0] == "set" and isinstance(e[2], str):
+            try:
+                loc[e[1]] = _term(ex(e[2]), cls, o, A, B, loc)
+            except (AnalysisError, SyntaxError):
+                loc.pop(e[1], None)
+        elif e[0] == "set":
+            loc.pop(e[1], None)
+        elif e[0] == "aug" and e[1] in loc and e[2] in ("Add", "Sub"):
+            v = _term(ex(e[3]), cls, o, A, B, loc)
+            loc[e[1]] = loc[e[1]] + v if e[2] == "Add" else loc[e[1]] - v
+        elif e[0] == "aug" and e[1] in loc and e[2] in ("Mult", "MatMult"):
+            loc[e[1]] = loc[e[1]] * _term(ex(e[3]), cls, o, A, B, loc)
+        elif e[0] == "aug":
+            loc.pop(e[1], None)
+        elif e[0] == "return":
+            return None if e[1] is None else _term(ex(e[1]), cls, o, A, B, loc)
+        elif e[0] == "raise":
+            return None
+        elif e[0] in ("store", "loop"):
+            raise AnalysisError("%s.%s: the selected path stores into an object or loops before it returns: %s" % (cls, st.name, str(e)[:80]))
+    return None
+
+
+def _term(n, cls, o, A, B, loc=None):
+    if isinstance(n, ast.Name) and loc and n.id in loc:
+        return loc[n.id]
+    if isinstance(n, ast.Call) and isinstance(n.func, ast.Attribute) and n.func.attr in ("copy", "astype") and (n.func.attr == "astype" or not n.args):
+        return _term(n.func.value, cls, o, A, B, loc)  # the same matrix in fresh storage / another precision
     if isinstance(n, ast.UnaryOp) and isinstance(n.op, ast.USub):
-        return NC.const(-1) * _term(n.operand, cls, o, A, B)
+        return NC.const(-1) * _term(n.operand, cls, o, A, B, loc)
     if isinstance(n, ast.BinOp) and isinstance(n.op, (ast.Add, ast.Sub)):
-        l, r = _term(n.left, cls, o, A, B), _term(n.right, cls, o, A, B)
+        l, r = _term(n.left, cls, o, A, B, loc), _term(n.right, cls, o, A, B, loc)
         return l + r if isinstance(n.op, ast.Add) else l - r
     if isinstance(n, ast.Call):
         f = n.func
         if isinstance(f, ast.Name) and f.id == cls and len(n.args) == 1 and not n.keywords:
-            return _term(n.args[0], cls, o, A, B)
+            return _term(n.args[0], cls, o, A, B, loc)
         if isinstance(f, ast.Attribute) and f.attr in REPS and not n.args and isinstance(f.value, ast.Name) and f.value.id in ("self", o):
             return A if f.value.id == "self" else B
     if isinstance(n, ast.Attribute) and n.attr in REPS and isinstance(n.value, ast.Name) and n.value.id in ("self", o):
         return A if n.value.id == "self" else B
     if isinstance(n, ast.BinOp) and isinstance(n.op, (ast.Mult, ast.MatMult)):
-        return _term(n.left, cls, o, A, B) * _term(n.right, cls, o, A, B)
+        return _term(n.left, cls, o, A, B, loc) * _term(n.right, cls, o, A, B, loc)
     if isinstance(n, ast.Name) and n.id == o and B is not None and not any(w for (_, w) in B.t):
         return B  # the other operand is a scalar in this world
     if isinstance(n, ast.Call) and isinstance(n.func, ast.Attribute) and n.func.attr == "type" and len(n.args) == 1 and unparse(n.func.value).split("(")[0].split(".")[-1] == "dtype":
-        return _term(n.args[0], cls, o, A, B)  # np.dtype("float32").type(s): the scalar s in another precision
+        return _term(n.args[0], cls, o, A, B, loc)  # np.dtype("float32").type(s): the scalar s in another precision
     raise AnalysisError("%s: expression outside the term subset: %s" % (cls, unparse(n)[:60]))
 
 
@@ -81,11 +116,8 @@ def subclass_products(ctx):
                 if txt in ("self.dot(%s)" % o, "self.__mul__(%s)" % o, "self.__matmul__(%s)" % o):
                     continue  # forwarded to a sibling method judged on its own
                 want = A * other if other is Bop else s_ * A
-                try:
-                    got = _term(node, cname, o, A, other)
-                    ok, msg = got == want, "%s.%s for a %s builds %r, the expression denotes %r" % (cname, mname, wname, got, want)
-                except AnalysisError as e:
-                    ok, msg = False, str(e)
+                got = _term(node, cname, o, A, other)  # (an expression outside the term subset: cannot analyse, not a verdict)
+                ok, msg = got == want, "%s.%s for a %s builds %r, the expression denotes %r" % (cname, mname, wname, got, want)
                 n += 1
                 r.check(ok, "%s.%s: %s" % (cname, mname, wname), DO, "%s.%s" % (cname, mname), st.lineno, "%s.%s %s" % (cname, mname, wname), msg)
     if n < 12:
@@ -106,17 +138,11 @@ def subclass_dunders(ctx):
             pa = arg_names(st)
             o = pa[1] if len(pa) > 1 else "‹none›"
             env = {"isinstance(%s, %s)" % (o, cname): True, "self.shape": (3, 3), "%s.shape" % o: (3, 3)}
-            kind, node = dispatch.select(st, env)
             want = {"__add__": A + B, "__sub__": A - B, "__neg__": NC.const(-1) * A}[st.name]
-            ok, msg = False, "%s.%s raises for an operand of its own class and equal shape" % (cname, st.name)
-            if kind == "return" and node is not None:
-                try:
-                    from . import roles
-
-                    got = _term(roles.inline(node, roles.Defs(st)), cname, o, A, B)
-                    ok, msg = got == want, "%s.%s builds %r, the expression denotes %r" % (cname, st.name, got, want)
-                except AnalysisError as e:
-                    ok, msg = False, str(e)
+            ok, msg = False, "%s.%s raises or returns nothing for an operand of its own class and equal shape" % (cname, st.name)
+            got = _path_term(st, env, cname, o, A, B)  # (an expression outside the term subset: cannot analyse, not a verdict)
+            if got is not None:
+                ok, msg = got == want, "%s.%s builds %r, the expression denotes %r" % (cname, st.name, got, want)
             n += 1
             r.check(ok, "%s.%s" % (cname, st.name), DO, "%s.%s" % (cname, st.name), st.lineno, "%s.%s term" % (cname, st.name), msg)
     if n < 6:
@@ -179,6 +205,9 @@ def real_on_complex(ctx):
                 env = {"self.dtype": dt, "self._impl.dtype": dt, "self._dtype": dt, "self._is_complex": False}
                 for np_ in ("_np", "np"):
                     env["%s.iscomplexobj(%s)" % (np_, x)] = True
+                    for t_ in ("float32", "float64", "complex64", "complex128"):  # the spellings of a dtype constant
+                        env["%s.%s" % (np_, t_)] = t_
+                        env["%s.dtype('%s')" % (np_, t_)] = t_
                     for rep in ("self.to_dense()", "self.to_sparse()", "self._impl", "self.A"):
                         env["%s.iscomplexobj(%s)" % (np_, rep)] = False
                 try:
